@@ -17,6 +17,12 @@ def main():
         runpy.run_path(path, run_name='__main__')
     except SystemExit:
         raise
+    except common.ImplHang as hang:
+        ck = common.CURRENT
+        sys.stderr.write('%s\n%s\n' % (hang, '\n'.join(hang.stack)))
+        ck.violation('impl-hang:' + hang.entry, 'the implementation does not return: %s (stopped by the check after %d s)' % (hang.entry, hang.secs),
+                     {'call': hang.entry, 'locals_of_the_call': hang.args_repr, 'stack_when_stopped': hang.stack})
+        ck.finish(level='proof', rule='(run stopped: an implementation call did not return)', explanation='implementation hang')
     except BaseException:  # noqa
         tb = traceback.format_exc()
         sys.stderr.write(tb)
